@@ -238,7 +238,7 @@ def check(run, prog):
     run.require(fi is not None, "anchor vanished: File.__init__")
     bad = None
     try:
-        for p in ("a.c", "src/m.h", "./x/y.z.c", "/abs/p.h", "sp ace.c", "noext", "dir.d/in ner.c"):
+        for p in ("a.c", "src/m.h", "./x/y.z.c", "/abs/p.h", "sp ace.c", "noext", "dir.d/in ner.c", "Src/MixedCase.C", "UP.H", "a.c/"):
             b = FormatterBench(prog)
             try:
                 f = b.ev.construct("File", [p], {})
